@@ -1,5 +1,5 @@
 // ---- trusted stubs for the multi-word division glue (integer/src/div/mod.rs, div_ops.rs::repr). Word = @W@ --------
-// Needs lib/prelude.rs, lib/repr_stubs.rs (Buffer), lib/div_dword_stubs.rs (FastDivideNormalized2).
+// Needs lib/prelude.rs, lib/repr_stubs.rs (Buffer), lib/div_dword_stubs.rs, lib/div_post_spec.rs (Memory).
 
 /// integer/src/primitive.rs :: highest_dword reads the two top words through `get_unchecked` (unsafe, outside
 /// Verus' reach). ASSUMED contract (same text as lib/div_simple_stubs.rs); checked on the real code by the Kani
@@ -10,11 +10,6 @@ pub fn highest_dword(words: &[Word]) -> (ret: DoubleWord)
     ensures ret as int == words@[words@.len() - 2] as int + (words@[words@.len() - 1] as int) * B(),
 { unimplemented!() }
 
-/// "rhs is normalized and fd is the reciprocal of its two top words": the precondition shared by the division kernels
-pub open spec fn div_prepared(rhs: Seq<Word>, fd: FastDivideNormalized2) -> bool {
-    rhs.len() >= 2 && fd.wf() && fd.divisor() == rhs[rhs.len() - 2] as int + (rhs[rhs.len() - 1] as int) * B()
-}
-
 // integer/src/memory.rs: scratch memory for the divide-and-conquer branch.  Opaque: no contract beyond existence.
 // `MemoryAllocation::new` aborts / panics (panic_allocate_too_much, handle_alloc_error) when the request cannot be
 // served: a RESOURCE failure, not covered by any contract here.
@@ -22,8 +17,6 @@ pub open spec fn div_prepared(rhs: Seq<Word>, fd: FastDivideNormalized2) -> bool
 pub struct Layout { _p: u8 }
 #[verifier::external_body]
 pub struct MemoryAllocation { _p: u8 }
-#[verifier::external_body]
-pub struct Memory<'a> { _p: &'a u8 }
 impl MemoryAllocation {
     #[verifier::external_body]
     pub fn new(layout: Layout) -> (r: MemoryAllocation) { unimplemented!() }
@@ -50,25 +43,4 @@ pub fn memory_requirement_exact(lhs_len: usize, rhs_len: usize) -> (r: Layout)
     requires lhs_len >= rhs_len && rhs_len >= 2,
 { unimplemented!() }
 
-pub mod divide_conquer {
-use super::super::*;
-/// integer/src/div/divide_conquer.rs :: div_rem_in_place — NOT VERIFIED (operands > 32 words, recursive, scratch memory).
-/// ASSUMED to satisfy the contract PROVED for simple::div_rem_in_place (unit int_div_simple; same text).
-/// Everything derived through the `else` branch of div::div_rem_in_place (divisor AND quotient longer than 32 words)
-/// rests on this assumption.
-#[verifier::external_body]
-pub fn div_rem_in_place(lhs: &mut [Word], rhs: &[Word], fast_div_rhs_top: FastDivideNormalized2, memory: &mut Memory) -> (ret: bool)
-    requires
-        2 <= rhs@.len() <= old(lhs)@.len() <= usize::MAX,
-        fast_div_rhs_top.wf(),
-        fast_div_rhs_top.divisor() == rhs@[rhs@.len() - 2] as int + (rhs@[rhs@.len() - 1] as int) * B(),
-    ensures
-        final(lhs)@.len() == old(lhs)@.len(),
-        val(old(lhs)@) == (val(final(lhs)@.subrange(rhs@.len() as int, old(lhs)@.len() as int))
-                + b2i(ret) * pw(old(lhs)@.len() - rhs@.len())) * val(rhs@)
-            + val(final(lhs)@.subrange(0, rhs@.len() as int)),
-        val(final(lhs)@.subrange(0, rhs@.len() as int)) < val(rhs@),
-        ret == (val(old(lhs)@.subrange(old(lhs)@.len() - rhs@.len(), old(lhs)@.len() as int)) >= val(rhs@)),
-{ unimplemented!() }
-}
 }
